@@ -118,6 +118,47 @@ func pairInput(names []string, ls ...*sbom.NodeList) map[string]any {
 	return m
 }
 
+// perturbed returns a copy of a in which edges keep their source and type but gain, lose or swap
+// targets, some edges are dropped and a few added: operands that share most (source,type) keys.
+func perturbed(g *gen.G, a *sbom.NodeList) *sbom.NodeList {
+	b := clone(a)
+	var ids []string
+	for _, n := range b.Nodes {
+		ids = append(ids, n.Id)
+	}
+	if len(ids) == 0 {
+		return b
+	}
+	var edges []*sbom.Edge
+	for _, e := range b.Edges {
+		if g.Chance(0.15) {
+			continue
+		}
+		if g.Chance(0.5) {
+			e.To = append(e.To, gen.Pick(g, ids))
+		}
+		if len(e.To) > 1 && g.Chance(0.4) {
+			e.To = e.To[1:]
+		}
+		if len(e.To) > 0 && g.Chance(0.3) {
+			e.To[g.Int(len(e.To))] = gen.Pick(g, ids)
+		}
+		edges = append(edges, e)
+	}
+	for k := g.Int(3); k > 0; k-- {
+		edges = append(edges, &sbom.Edge{Type: g.EdgeType(), From: gen.Pick(g, ids), To: []string{gen.Pick(g, ids)}})
+	}
+	g.R.Shuffle(len(edges), func(i, j int) { edges[i], edges[j] = edges[j], edges[i] })
+	b.Edges = edges
+	if g.Chance(0.3) && len(b.Nodes) > 1 {
+		b.Nodes = b.Nodes[1:]
+	}
+	if g.Chance(0.3) {
+		b.Nodes = append(b.Nodes, g.Node("n"+gen.Pick(g, gen.IDPool), 0.3))
+	}
+	return b
+}
+
 func operandShape(g *gen.G, i int) gen.Shape {
 	sh := gen.Shape{MaxNodes: 5, MaxEdges: 6, WellFormed: i%3 != 0, Richness: 0.35, OddIDs: 0.05, Pool: gen.IDPool[:6]}
 	if i%5 == 1 {
@@ -155,6 +196,11 @@ func runC09(seed int64, n int, dir string, tier string) *Report {
 		a := g.NodeList(operandShape(g, i))
 		b := g.NodeList(operandShape(g, i+1))
 		c := g.NodeList(operandShape(g, i+2))
+		if i%3 == 1 {
+			a = g.NodeList(gen.Shape{MaxNodes: 5, MaxEdges: 7, WellFormed: true, Richness: 0.2, Pool: gen.IDPool[:6]})
+			b = perturbed(g, a)
+			rep.Count("operands=perturbed-copy")
+		}
 		empty := &sbom.NodeList{}
 		wfcount := 0
 		for _, x := range []*sbom.NodeList{a, b, c} {
@@ -279,6 +325,10 @@ func runC10(seed int64, n int, dir string, tier string) *Report {
 		a := g.NodeList(operandShape(g, i))
 		b := g.NodeList(operandShape(g, i+1))
 		switch i % 6 {
+		case 1, 3: // same keys, different targets
+			a = g.NodeList(gen.Shape{MaxNodes: 5, MaxEdges: 7, WellFormed: true, Richness: 0.2, Pool: gen.IDPool[:6]})
+			b = perturbed(g, a)
+			rep.Count("operands=perturbed-copy")
 		case 2: // nested
 			b = clone(a)
 			b.Nodes = append(b.Nodes, g.Node("zz", 0.3))
